@@ -203,7 +203,12 @@ func genURL() *rapid.Generator[string] {
 		bs := rapid.SliceOfN(rapid.ByteRange(1, 255), 0, 40).Draw(t, "bytes")
 		return string(bs)
 	})
-	return rapid.OneOf(structured, structured, dots, arbitrary, rapid.StringOfN(rapid.RuneFrom([]rune{'/', '.', 'a', '\\', '%', ';', ' '}), 0, 30, -1))
+	long := rapid.Custom(func(t *rapid.T) string {
+		n := rapid.SampledFrom([]int{255, 256, 1024, 4097, 20000}).Draw(t, "len")
+		unit := rapid.SampledFrom([]string{"a/", "../", "a/../", "./", "x", "../../a/", "\\../"}).Draw(t, "unit")
+		return rapid.SampledFrom([]string{"", "/", "//"}).Draw(t, "lead") + strings.Repeat(unit, n/len(unit)+1)[:n] + rapid.SampledFrom([]string{"", "..", "/..", "/../.."}).Draw(t, "tail")
+	})
+	return rapid.OneOf(structured, structured, dots, arbitrary, structured, dots, arbitrary, long, rapid.StringOfN(rapid.RuneFrom([]rune{'/', '.', 'a', '\\', '%', ';', ' '}), 0, 30, -1))
 }
 
 func genBase() *rapid.Generator[string] {
